@@ -63,6 +63,8 @@ fn item_decl(kind: &str, name: &str, public: bool, n: u64) -> String {
         "class" => format!("{p}class {name}:\n    v: int\n\n    def get(self) -> int:\n        return self.v\n\n"),
         "enum" => format!("{p}enum {name}:\n    One\n    Two\n\n"),
         "const" => format!("{p}const {name}: int = {n}\n\n"),
+        "trait" => format!("{p}trait {name}:\n    def describe(self) -> int: ...\n\n"),
+        "newtype" => format!("{p}type {name} = newtype int\n\n"),
         _ => format!("{p}def {name}() -> int:\n    return {n}\n\n"),
     }
 }
@@ -74,13 +76,15 @@ fn item_use_fn(kind: &str, local: &str, fname: &str, public: bool) -> String {
         "model" | "class" => format!("{p}def {fname}() -> int:\n    obj = {local}(v=1)\n    return obj.v\n"),
         "enum" => format!("{p}def {fname}_takes(e: {local}) -> int:\n    return 1\n\n{p}def {fname}() -> int:\n    return 1\n"),
         "const" => format!("{p}def {fname}() -> int:\n    x = {local}\n    return 1\n"),
+        "trait" => format!("class Impl{fname} with {local}:\n    v: int\n\n    def describe(self) -> int:\n        return self.v\n\n{p}def {fname}() -> int:\n    return 1\n"),
+        "newtype" => format!("{p}def {fname}() -> int:\n    w = {local}(3)\n    return 1\n"),
         _ => format!("{p}def {fname}() -> int:\n    return {local}()\n"),
     }
 }
 
 fn item_name(kind: &str, base: &str) -> String {
     match kind {
-        "model" | "class" | "enum" => {
+        "model" | "class" | "enum" | "trait" | "newtype" => {
             let mut c = base.chars();
             c.next().map(|f| f.to_uppercase().collect::<String>() + c.as_str()).unwrap_or_default().replace('_', "")
         }
@@ -143,7 +147,7 @@ pub fn random_features(seed: u64) -> Features {
         13..=16 => "visibility",
         _ => "fault",
     };
-    let item_kind = *r.pick(&["def", "def", "model", "const", "class", "enum"]);
+    let item_kind = *r.pick(&["def", "def", "model", "const", "class", "enum", "trait", "newtype"]);
     let spelling = match r.below(10) {
         0..=3 => "py",
         4 => "py-alias",
